@@ -171,6 +171,29 @@ fn totals<S: ScaleFunction + Clone + std::fmt::Debug>(d: &TDigestInner<S>) -> (f
     (c, sm, n)
 }
 
+// ---- C15: interpolate between knots that are as far apart as finite doubles can be ----
+// every value quantile()/cdf() return between two knots goes through interpolate(a, b, t).  (A harness over ALL finite
+// a <= b and all t in [0, 1] was tried first: CBMC's budget is exhausted after 10 min -- two symbolic multiplications and
+// an addition.)  Bounded stand-in: a = -i * 2^1021, b = j * 2^1021 (i, j in 0..=7, so b - a may exceed f64::MAX) and
+// t = k/8: every product and the sum are exact, so the result must lie in [a, b] exactly and hit the knots at t = 0, 1.
+harness! {
+    #[kani::unwind(2)]
+    fn c15_td_interpolate_wide_knots() {
+        let (i, j, k): (u8, u8, u8) = (any(), any(), any());
+        assume(i <= 7 && j <= 7 && k <= 8);
+        let unit = f64::from_bits(0x7FC0_0000_0000_0000);    // 2^1021
+        let a = -(i as f64) * unit;
+        let b = (j as f64) * unit;
+        let t = (k as f64) / 8.;
+        let r = TDigestInner::<K0>::interpolate(a, b, t);
+        assert!(r.is_finite(), "C15 interpolation between finite knots is finite");
+        assert!(a <= r && r <= b, "C15 interpolation stays between its knots (quantile within [min, max])");
+        if k == 0 { assert!(r == a, "C15 interpolation hits the lower knot exactly"); }
+        if k == 8 { assert!(r == b, "C15 interpolation hits the upper knot exactly"); }
+        vcover!(i == 7 && j == 7 && k == 4, "knots further apart than f64::MAX");
+    }
+}
+
 // ---- C16: insert_weighted on the full f64 domain (loop-free: complete) ----
 harness! {
     #[kani::unwind(4)]
